@@ -365,23 +365,41 @@ def run(ctx, pid):
 
 # ------------------------------------------------------------------------------------------------ C36
 SSPEC = "Cluster"
-S_CODE_DEFECTS = ["NonAtomicPublish"]
+S_CODE_DEFECTS = ["NonAtomicPublish", "BlindRemove"]     # known findings = the branches the code has
+# single branches whose TLC counterexample is replayed on the real code. The last two are NOT in the code (seeded-mutant classes): on the
+# unchanged code their replay leaves the model harmlessly, on a tree that has the branch it reproduces the violation.
+S_WITNESS = {
+    "NonAtomicPublish": (["NonAtomicPublish"], lambda: stable("ac", "a", "c", 2)),
+    "BlindRemove": (["BlindRemove"], lambda: stable("ba", "b", "a", 2, kinds="rr", rec0="D", name="reloc_ba")),
+    "QuorumMissFallsThrough": (["QuorumMissFallsThrough"], lambda: stable("ba", "b", "a", 2, kinds="rr", rec0="D", faults=1, name="relocf_ba")),
+    "SoloSelfLeader": (["NonAtomicPublish", "SoloSelfLeader"], lambda: stable("ac", "a", "a", 0, solo="c", lead={"C": "-"}, name="solo_ac")),
+}
 
 
-def stable(orgs, l0, newlead, changes):
+def stable(orgs, l0, newlead, changes, kinds=None, solo="", rec0="-", faults=0, lead=None, name=None):
+    """orgs 'ac' = origin nodes of t1.., l0 = initial coordinator in every view (lead = per-node override, '-' = no coordinator),
+    kinds 's' spawn / 'r' relocation item, solo = nodes whose view is [self], rec0 = initial record ('D' = departed node)"""
     ts = ["t%d" % (i + 1) for i in range(len(orgs))]
-    return {"threads": ts, "orgs": {t: o.upper() for t, o in zip(ts, orgs)}, "lead": {n: l0.upper() for n in "ABC"},
-            "newlead": newlead.upper(), "changes": changes, "name": "%s_%s%s%d" % (orgs, l0, newlead, changes)}
+    kinds = kinds or "s" * len(orgs)
+    ld = {n: l0.upper() for n in "ABC"}
+    for n, v in (lead or {}).items():
+        ld[n] = v
+    return {"threads": ts, "orgs": {t: o.upper() for t, o in zip(ts, orgs)}, "kinds": {t: ("reloc" if k == "r" else "spawn") for t, k in zip(ts, kinds)},
+            "lead": ld, "solo": sorted(solo.upper()), "rec0": rec0, "faults": faults,
+            "newlead": newlead.upper(), "changes": changes, "name": name or "%s_%s%s%d" % (orgs, l0, newlead, changes)}
 
 
-def scfg(tb, defects, invariants=(), view=True, spec="Spec", extra=""):
+def scfg(tb, defects, invariants=(), view=True, spec="Spec", extra="", faults=None):
     o = [tb["orgs"].get("t%d" % i, "-") for i in range(1, 4)]
+    k = [tb["kinds"].get("t%d" % i, "-") for i in range(1, 4)]
     lines = ["SPECIFICATION " + spec, "CONSTANTS", '  Nodes = {"A", "B", "C"}',
              "  Threads = {%s}" % ", ".join('"%s"' % t for t in tb["threads"])]
-    lines += ['  O%d = "%s"' % (i + 1, o[i]) for i in range(3)]
+    lines += ['  O%d = "%s"' % (i + 1, o[i]) for i in range(3)] + ['  K%d = "%s"' % (i + 1, k[i]) for i in range(3)]
     lines += ['  L%s = "%s"' % (n, tb["lead"][n]) for n in "ABC"]
-    lines += ["  Org <- OrgT", "  Lead0 <- LeadT", '  NewLead = "%s"' % tb["newlead"], "  MaxChanges = %d" % tb["changes"], "  MaxHops = 2",
-              "  MaxTries = 1", "  Defects = {%s}" % ", ".join('"%s"' % d for d in defects)]
+    lines += ["  Org <- OrgT", "  Kind <- KindT", "  Lead0 <- LeadT", "  Solo = {%s}" % ", ".join('"%s"' % n for n in tb["solo"]),
+              '  Rec0 = "%s"' % tb["rec0"], '  NewLead = "%s"' % tb["newlead"], "  MaxChanges = %d" % tb["changes"], "  MaxHops = 2",
+              "  MaxTries = 1", "  MaxFaults = %d" % (tb["faults"] if faults is None else faults),
+              "  Defects = {%s}" % ", ".join('"%s"' % d for d in defects)]
     if view:
         lines.append("VIEW View0")
     if invariants:
@@ -396,12 +414,41 @@ def s_steps(lasts):
     return [{"t": x["t"], "a": x["a"], "pc": x["pc"], "at": x["at"], "n": x.get("n", "-"), "m": x.get("m", "-")} for x in lasts]
 
 
+def _coordinator_ok(hrows, start_row):
+    """the node started its instance while ITS OWN membership view flagged it coordinator (last Members answer before the start)"""
+    i = hrows.index(start_row)
+    views = [r for r in hrows[:i] if r["ev"] == "op" and r["op"] == "Members" and r["n"] == start_row["n"] and r["res"] >= 0]
+    return bool(views) and views[-1]["own"] == start_row["n"]
+
+
+def _bad_removes(hrows, upto):
+    """(index, known?) of RemoveActor operations that removed the record of a live instance on another node. Known (BlindRemove) iff the
+    removing relocation thread's gating GetActor had SUCCEEDED (no record, or the departed node's record) - a failed gating read is not."""
+    out, running = [], {}
+    for i, r in enumerate(hrows[:upto]):
+        if r["ev"] == "start":
+            running[r["inst"]] = r["n"]
+        elif r["ev"] == "stop":
+            running.pop(r["inst"], None)
+        elif r["ev"] == "op" and r["op"] == "RemoveActor" and r.get("prev") not in ("", "-", "D", "?", None) and r["prev"] != r["n"] \
+                and r["prev"] in running.values():
+            gets = [g for g in hrows[:i] if g["ev"] == "op" and g["op"] == "GetActor" and g.get("t") and g.get("t") == r.get("t")]
+            ok = bool(gets) and r.get("t") and (gets[-1]["res"] == 0 or (gets[-1]["res"] == 1 and gets[-1]["own"] == "D"))
+            out.append((i, bool(ok)))
+    return out
+
+
 def classify_c36(hrows, line_idx):
-    """NonAtomicPublish on the real trace: the start that makes two instances run at once happened on a node OTHER than the node
-    of the instance already running, on both nodes the precondition read (ActorExists, as answered by the store) had said
-    'no record' before the node started its instance, and the second node's read came BEFORE the first node's PutActor - i.e.
-    both went through the non-atomic check-then-publish window."""
+    """Which KNOWN finding does the monitor failure at hrows[line_idx] exhibit (witness on the real trace)?
+    BlindRemove: the failure is a RemoveActor of a live survivor's record by a relocation thread whose gating read had succeeded, or a
+    duplicate start that follows such a removal.
+    NonAtomicPublish: the start that makes two instances run at once happened on a node OTHER than the node of the instance already
+    running, BOTH nodes were coordinator in their own membership view when they started, on both nodes the precondition read
+    (ActorExists, as answered by the store) had said 'no record', and the second node's read came BEFORE the first node's PutActor."""
     e = hrows[line_idx]
+    if e["ev"] == "op" and e.get("op") == "RemoveActor":
+        br = [k for i, k in _bad_removes(hrows, line_idx + 1) if i == line_idx]
+        return ["BlindRemove"] if br and br[0] else []
     if e["ev"] != "start":
         return []
     running = {}
@@ -413,8 +460,11 @@ def classify_c36(hrows, line_idx):
     if len(running) != 1:
         return []
     other = next(iter(running.values()))
-    if other["n"] == e["n"]:
+    if other["n"] == e["n"] or not _coordinator_ok(hrows, e) or not _coordinator_ok(hrows, other):
         return []
+    br = _bad_removes(hrows, line_idx)
+    if br:
+        return ["BlindRemove"] if all(k for _, k in br) else []
 
     def check_idx(start_row):
         """index of the node's last ActorExists before its start if the store answered 'no record', else None"""
@@ -439,16 +489,24 @@ def run_c36(ctx, pid):
 
     def tlc(tb, defects, label, must_hold=False, **kw):
         cfgname = "s_%s_%s.cfg" % (tb["name"], label)
-        inv = kw.pop("invariants", ("TypeOK", "OneSingleton"))
+        inv = kw.pop("invariants", ("TypeOK", "OneSingleton", "NoForeignRemove"))
         p = write(ctx, cfgname, scfg(tb, defects, invariants=inv, view=kw.pop("view", True)))
         fn = ctx.tlc_must_hold if must_hold else ctx.tlc
         return fn(SSPEC, cfgname, module="MC_Singleton", files={cfgname: p}, name=cfgname[:-4], timeout=kw.pop("timeout", 1500), **kw)
 
-    tables = [stable("ac", "a", "c", 2), stable("aa", "a", "b", 2), stable("bc", "a", "b", 3), stable("abc", "a", "b", 2)]
+    tables = [stable("ac", "a", "c", 2), stable("aa", "a", "b", 2, faults=1, name="aa_ab2f"), stable("abc", "a", "b", 2),
+              stable("ba", "b", "a", 2, kinds="rr", rec0="D", faults=1, name="relocf_ba"),
+              stable("acb", "a", "c", 2, kinds="srs", rec0="D", name="mixr_acb"),
+              stable("abc", "a", "b", 2, faults=1, lead={"C": "-"}, solo="c", name="solo_abc"),
+              stable("ab", "a", "b", 1, lead={"B": "-"}, name="nocoord_ab")]
     if not quick:
-        tables += [stable("abc", "a", "c", 3), stable("acc", "a", "c", 3), stable("bbc", "a", "c", 3), stable("cab", "b", "a", 3)]
+        tables += [stable("bc", "a", "b", 3), stable("abc", "a", "c", 3), stable("acc", "a", "c", 3), stable("bbc", "a", "c", 3), stable("cab", "b", "a", 3),
+                   stable("acb", "a", "c", 2, kinds="ssr", rec0="D", faults=1, lead={"B": "-"}, name="mix_acb")]
     fut_design = [pool.submit(tlc, tb, [], "repaired", must_hold=True, workers=2) for tb in tables]
-    fut_asis = pool.submit(tlc, tables[0], ["NonAtomicPublish"], "asis", expect_fail=True, workers=2)
+    # without a second coordinator the code's NonAtomicPublish branch alone is harmless: a node whose view flags nobody must not spawn
+    solo_tb = S_WITNESS["SoloSelfLeader"][1]()
+    fut_design.append(pool.submit(tlc, solo_tb, ["NonAtomicPublish", "BlindRemove"], "code-holds", must_hold=True, workers=2))
+    fut_wit = {d: (tbf(), pool.submit(tlc, tbf(), defs, "only-" + d, expect_fail=True, workers=2)) for d, (defs, tbf) in S_WITNESS.items()}
 
     nsel = 150 if quick else 1200
     nsim = 150 if quick else 1200
@@ -462,6 +520,9 @@ def run_c36(ctx, pid):
         r = ctx.tlc(SSPEC, cfgname, module="Gen_Singleton", files={cfgname: p}, simulate="num=%d" % nsim, depth=60, deadlock_check=False,
                     workers=1, timeout=900, name=cfgname[:-4])
         return vlib.parse_sim_behaviours(r.out)
+
+    def beh(tb):
+        return {"orgs": tb["orgs"], "kinds": tb["kinds"], "lead": tb["lead"], "solo": tb["solo"], "rec0": tb["rec0"]}
 
     fut_dump = {tb["name"]: (tb, pool.submit(dump, tb)) for tb in tables}
     fut_sim = {tb["name"]: (tb, pool.submit(sim, tb)) for tb in tables}
@@ -478,31 +539,32 @@ def run_c36(ctx, pid):
             steps = s_steps([dict(_LAST.findall(g.state(s["to"])["last"])) for s in w])
             if any(s["pc"] == "cut" for s in steps):
                 continue      # beyond the hop bound of the model the real call keeps forwarding until its deadline
-            bs.append({"orgs": tb["orgs"], "lead": tb["lead"], "steps": steps, "tag": name})
+            bs.append(dict(beh(tb), steps=steps, tag=name))
         bs = vlib.sample(rng, bs, nsel)
         behaviours += bs
         per_table[name] += len(bs)
         samples.append({name: [[s["t"], s["a"], s["pc"]] for s in bs[0]["steps"]][:30]})
     for name, (tb, f) in fut_sim.items():
         hs = [s_steps(h) for h in f.result()]
-        bs = [{"orgs": tb["orgs"], "lead": tb["lead"], "steps": h, "tag": name} for h in hs if not any(s["pc"] == "cut" for s in h)]
+        bs = [dict(beh(tb), steps=h, tag=name) for h in hs if not any(s["pc"] == "cut" for s in h)]
         if len(bs) < nsim // 8:
             raise vlib.Infra("simulation produced too few behaviours for %s (%d)" % (name, len(bs)))
         behaviours += bs
         per_table[name] += len(bs)
-    # the counterexample of the code model is the witness of the known finding
-    r = fut_asis.result()
-    if r.violated != "OneSingleton":
-        raise vlib.Infra("Singleton.tla with Defects={NonAtomicPublish} no longer violates OneSingleton (stale Defects table?)")
-    wsteps = []
-    for m in re.finditer(r'/\\ last = (\[.*?\])\n', r.out, re.S):
-        last = dict(_LAST.findall(m.group(1)))
-        if last.get("a") and last["a"] != "init":
-            wsteps.append(last)
-    if len(wsteps) < 6:
-        raise vlib.Infra("could not read the counterexample of Singleton.tla Defects={NonAtomicPublish}")
-    behaviours.append({"orgs": tables[0]["orgs"], "lead": tables[0]["lead"], "steps": s_steps(wsteps), "tag": "witness-NonAtomicPublish"})
-    per_table["witness-NonAtomicPublish"] += 1
+    # the counterexample of every single branch is replayed on the real code
+    for d, (tbw, f) in fut_wit.items():
+        r = f.result()
+        if r.violated not in ("OneSingleton", "NoForeignRemove"):
+            raise vlib.Infra("Singleton.tla with the branch %s no longer violates C36's invariants (stale Defects table?)" % d)
+        wsteps = []
+        for m in re.finditer(r'/\\ last = (\[.*?\])\n', r.out, re.S):
+            last = dict(_LAST.findall(m.group(1)))
+            if last.get("a") and last["a"] != "init":
+                wsteps.append(last)
+        if len(wsteps) < 6:
+            raise vlib.Infra("could not read the counterexample of Singleton.tla branch %s" % d)
+        behaviours.append(dict(beh(tbw), steps=s_steps(wsteps), tag="witness-" + d))
+        per_table["witness-" + d] += 1
     bfile = ctx.tmp("behaviours.ndjson")
     vlib.write_ndjson(bfile, behaviours)
     ctx.log("behaviours: %d (edge-cover walks available %d) %s" % (len(behaviours), edge_total, dict(per_table)))
@@ -537,7 +599,7 @@ def run_c36(ctx, pid):
         path = ctx.tmp("conf-%s.ndjson" % tb["name"])
         vlib.write_ndjson(path, sub)
         cfgname = "s_%s_trace.cfg" % tb["name"]
-        pc = write(ctx, cfgname, scfg(tb, S_CODE_DEFECTS, invariants=(), view=False, spec="TSpec"))
+        pc = write(ctx, cfgname, scfg(tb, S_CODE_DEFECTS, invariants=(), view=False, spec="TSpec", faults=9))
         r = ctx.tlc(SSPEC, cfgname, module="Trace_Singleton", dfs=True, files={cfgname: pc, "trace.ndjson": path}, timeout=2400, heap="6g",
                     expect_fail=True, name=cfgname[:-4])
         if r.error:
@@ -592,12 +654,12 @@ def run_c36(ctx, pid):
                        "Singleton.tla (code model; tables %s = caller origins, initial coordinator, new coordinator, view changes) and TLC "
                        "random walks, plus seeded random schedules over the real gates with random view changes; distinct_nontrivial = "
                        "distinct replayed step sequences (2-3 concurrent SpawnSingleton calls)" % ",".join(t["name"] for t in tables),
-               "atomic_steps_replayed": rstats["steps"] + estats["steps"], "replay_drift": sum(drift_by.values()),
+               "atomic_steps_replayed": rstats["steps"] + estats["steps"], "replay_drift": sum(v for k, v in drift_by.items() if not k.startswith("witness-")),
                "replay_drift_by_table": dict(drift_by), "replay_drift_at": rstats.get("drift_at"), "conformance_drift": drift_conf or None,
                "events_judged": events, "not_quiescent": rstats["not_quiescent"] + estats["not_quiescent"],
                "known_finding_hits": dict(known_hits), "code_defects_modelled": S_CODE_DEFECTS, "exhaustive": False}
         ctx.evidence("model_checking", cov,
-                     ["one singleton name, no role; 3 nodes; 2-3 concurrent SpawnSingleton calls; one leadership change propagating node by node",
+                     ["one singleton name, no role; 3 nodes; 2-3 concurrent SpawnSingleton calls / relocation items (recreateSingletonFromWire, duplicates included); one leadership change propagating node by node; views without coordinator ([self] or peers without flag); <= 1 read-quorum failure of Members/ActorExists/GetActor",
                       "membership views are scripted per node through a fake olric client under goakt's real cluster engine (Members is real code)",
                       "RemoteSpawn is delivered in-process on the caller's goroutine to the target's real remoteSpawnHandler",
                       "running = between PreStart and PostStop of the singleton actor as reported by the actor itself; nobody stops singletons during a history",
